@@ -302,6 +302,50 @@ Definition roundtrip_codes (d : json) (back : bytes) : codes :=
   else if negb (lits_ok d) then [12]
   else [14].
 
+(* ------------------------------------------------------------------ the SHIP data envelope
+   sendSpineData / transformSpineDataIntoShipJson (ship/connection.go): the SPINE payload is
+   converted on its own, the envelope {"data":{"header":{"protocolId":..},"payload":
+   <placeholder>}} is converted on its own, and the converted placeholder, in brackets, is
+   replaced by the converted payload (strings.ReplaceAll); the message type byte goes in
+   front.  The receiver drops that byte, applies JsonFromEEBUSJson to the whole text and
+   takes the raw bytes of data.payload. *)
+Definition quoted (s : bytes) : bytes := 34 :: s ++ [34].
+
+Definition envelope (payload : json) : json :=
+  JO [(quoted (hx "64617461"),                                   (* data *)
+       JO [(quoted (hx "686561646572"),                          (* header *)
+            JO [(quoted (hx "70726f746f636f6c4964"),             (* protocolId *)
+                 JS (quoted ship_protocol_id))]);
+           (quoted (hx "7061796c6f6164"), payload)])].           (* payload *)
+
+(* the placeholder document {"place":"holder"} *)
+Definition placeholder_doc : json :=
+  JO [(quoted (hx "706c616365"), JS (quoted (hx "686f6c646572")))].
+
+(* what WriteShipMessageWithPayload puts on the websocket for the SPINE payload d *)
+Definition ship_message (d : json) : option bytes :=
+  match d with
+  | JO _ =>
+      Some (ship_msg_type_data ::
+            replace_all (91 :: ship_payload_placeholder ++ [93]) (wire d) (wire (envelope placeholder_doc)))
+  | _ => None
+  end.
+
+(* the JSON text the receiver decodes *)
+Definition received_text (msg : bytes) : bytes := from_eebus (tl msg).
+
+(* the regenerated placeholder is the rendering of placeholder_doc *)
+Definition envelope_ok : bool :=
+  ship_envelope_consts_found && bytes_eqb (render placeholder_doc) ship_payload_placeholder.
+
+(* end-to-end monitor: [payload] = the bytes handed to the SPINE reader, if any.
+   Same classes as roundtrip_codes, plus 15: nothing was delivered for a non-empty document *)
+Definition e2e_codes (d : json) (payload : option bytes) : codes :=
+  match payload with
+  | Some p => roundtrip_codes d p
+  | None => if negb (top_nonempty d) then [13] else [15]
+  end.
+
 (* ------------------------------------------------------------------ cases from jsondrv *)
 Inductive c07_case :=
 (* JsonFromEEBUSJson on arbitrary bytes: input, implementation's output *)
@@ -309,7 +353,11 @@ Inductive c07_case :=
 (* a document: the tree the driver rendered, whether JsonIntoEEBUSJson returned an error,
    its output, that output (re-wrapped in the stripped brackets) as a tree by the
    driver's tokenizer, JsonFromEEBUSJson of the output, and that as a tree *)
-| CDoc (d : json) (err : bool) (w : bytes) (wtree : option json) (back : bytes) (btree : option json).
+| CDoc (d : json) (err : bool) (w : bytes) (wtree : option json) (back : bytes) (btree : option json)
+(* end to end through two real ShipConnections: the SPINE payload document, the websocket
+   message the sender wrote (none if it wrote nothing), the payload bytes the receiver's
+   SPINE reader got (none if nothing was delivered) *)
+| CE2E (d : json) (msg : option bytes) (payload : option bytes).
 
 Definition check_c07 (c : c07_case) : codes :=
   match c with
@@ -332,6 +380,16 @@ Definition check_c07 (c : c07_case) : codes :=
               end)
           ++ roundtrip_codes d back
       end
+  | CE2E d msg payload =>
+      (* correspondence: the message on the wire, and the text the receiver decodes from it
+         is the envelope around exactly the bytes that were delivered *)
+      (if option_eqb bytes_eqb (ship_message d) msg
+          && match msg, payload with
+             | Some m, Some p => bytes_eqb (received_text m) (render (envelope (JS p)))
+             | _, _ => true
+             end
+       then [] else [1])
+      ++ e2e_codes d payload
   end.
 
 (* ------------------------------------------------------------------ case transport
@@ -486,6 +544,23 @@ Definition decode_case (t : bytes) : option c07_case :=
       | _ => None end
       | None => None end
       | None => None end
+      | None => None end
+      | None => None end
+  | 2 :: f :: t1 =>
+      (* CE2E: bit 0 of f = a message was written, bit 1 = a payload was delivered *)
+      match field t1 with
+      | Some (dc, t2) =>
+      match field t2 with
+      | Some (msg, t3) =>
+      match field t3 with
+      | Some (payload, []) =>
+          match decode_tree dc with
+          | Some (Some d) =>
+              Some (CE2E d (if N.testbit f 0 then Some msg else None)
+                           (if N.testbit f 1 then Some payload else None))
+          | _ => None
+          end
+      | _ => None end
       | None => None end
       | None => None end
   | _ => None
